@@ -292,6 +292,72 @@ def r07_7(prog, cfg):
     return r
 
 
+def r07_8(prog, cfg):
+    """`Non-negative return values indicate success, and ignored` (asn_application.h).  Every test of an output
+    callback's result -- and of a function that returns such a result unchanged -- is a comparison `< 0`; a truth test or
+    `!= 0` turns a callback that reports, say, the number of bytes it wrote into a failed encoding."""
+    r = Rule("R07.8", "the result of an output callback is only ever tested by `< 0`", floor=150 if cfg == "default" else 50)
+    # functions that hand a raw callback result back
+    raw = set()
+    for f in prog.funcs.values():
+        for b, i, e in f.calls():
+            if is_cb_call(e) and e.get("use") == "returned":
+                raw.add(f.name)
+    r.note("functions returning a raw callback result: %s" % sorted(raw))
+    for f in sorted(prog.funcs.values(), key=lambda f: f.key):
+        n = 0
+        for b, i, e in f.calls():
+            israw = e.get("callee") in raw
+            if not (is_cb_call(e) or israw):
+                continue
+            n += 1
+            key = "%s#%d" % ("cb" if not israw else e["callee"], n)
+            use = e.get("use")
+            ui = e.get("useinfo", {})
+            if use == "compared":
+                c = strip_casts(ui.get("cmp"))
+                okc = isinstance(c, list) and c and c[0] == "bin" and ((c[1] == "<" and const_of(c[3]) == 0) or (c[1] == ">=" and const_of(c[3]) == 0)
+                                                                    or (c[1] == "==" and const_of(c[3]) == -1) or (c[1] == "!=" and const_of(c[3]) == -1))
+                if okc:
+                    r.ok(f, key, "tested by `%s`" % tree_text(c)[-8:], e["line"], nontrivial=False)
+                else:
+                    r.bad(f, key, "the callback result is tested by `%s`: a non-negative, non-zero answer (success by contract) is taken for a failure" % tree_text(c), e["line"])
+            elif use == "cond":
+                r.bad(f, key, "the callback result is tested for truth: a non-negative, non-zero answer (success by contract) is taken for a failure", e["line"])
+            elif use in ("assigned", "init"):
+                v = ui.get("var") or (strip_casts(ui["lhs_tree"])[1] if ui.get("lhs_tree") is not None and is_var(ui["lhs_tree"]) else None)
+                badc = None
+                if v:
+                    # every direct test of the holder
+                    defs = sum(1 for b2, i2, d in f.events() if (d["k"] == "assign" and d.get("base_id") == v and d.get("lhs") == d.get("base")) or (d["k"] == "decl" and d.get("id") == v and "init" in d))
+                    cbdefs = sum(1 for b2, i2, d in f.calls() if (is_cb_call(d) or d.get("callee") in raw) and d.get("use") in ("assigned", "init")
+                                 and ((d.get("useinfo", {}).get("var") == v) or (d.get("useinfo", {}).get("lhs_tree") is not None and is_var(d["useinfo"]["lhs_tree"], v))))
+                    if defs == cbdefs:      # the variable holds nothing but callback results
+                        for bl in f.blocks.values():
+                            if not bl.term or "cond" not in bl.term:
+                                continue
+                            c = strip_casts(bl.term["cond"]["tree"])
+                            neg = c
+                            while isinstance(neg, list) and neg and neg[0] == "un" and neg[1] == "!":
+                                neg = strip_casts(neg[2])
+                            if is_var(neg, v):
+                                badc = (bl.term.get("line"), tree_text(c))
+                            elif isinstance(c, list) and c and c[0] == "bin" and is_var(strip_casts(c[2]), v) and c[1] in ("!=", "==", ">") and const_of(c[3]) == 0:
+                                badc = (bl.term.get("line"), tree_text(c))
+                if badc:
+                    r.bad(f, key, "the stored callback result is tested by `%s` at line %s: a non-negative, non-zero answer (success by contract) is "
+                                  "taken for a failure" % (badc[1], badc[0]), e["line"])
+                else:
+                    r.ok(f, key, "stored result is only tested against negative values", e["line"], nontrivial=False)
+            elif use in ("returned", "compound_assigned"):
+                r.ok(f, key, "result returned / or-ed into a status", e["line"], nontrivial=False)
+            else:
+                r.ok(f, key, "result use: %s" % use, e["line"], nontrivial=False)
+    for i in r.insts:
+        i.config = cfg
+    return r
+
+
 def run_config(prog, cfg):
     tab = load_tables("c07")
     ns = load_tables("nullslot")
@@ -318,7 +384,7 @@ def run_config(prog, cfg):
     for r in (r1, r2, r3, r4, r5, r6):
         for i in r.insts:
             i.config = cfg
-    return [r1, r2, r3, r4, r5, r6, r07_7(prog, cfg)]
+    return [r1, r2, r3, r4, r5, r6, r07_7(prog, cfg), r07_8(prog, cfg)]
 
 
 def run(ctx):
